@@ -42,3 +42,20 @@ check("C03",
       "TLA+ spec (UKVCrash) model-checked with TLC; batched TLC trace validation of real recovery executions on "
       "enumerated crash images (fault enumeration)",
       "DESIGN.md 4/C03")
+
+check("C04",
+      "TLC exhausts Sessions.tla (the reading()/writing() protocol step by step, 2 processes x 2 sessions x 2 puts with an "
+      "exception possible in the body, in each backend write of the flush and in end_write; 3 processes in the thorough tier) "
+      "for writer exclusion, durability of acknowledged records, readers seeing only complete records, lock freed and file "
+      "closed when idle, and progress under fairness.  Binding A: every (state, whole-session-with-failure-point) pair of "
+      "SessionSeq.tla is executed on real long-lived Collection objects (buffered and unbuffered); after each session a "
+      "separate process must obtain the write lock and the independently parsed file must equal the model's.  Binding B: "
+      "8-16 real processes with random delays and injected failures emit events inside the library lock, ordered by a "
+      "flock-protected counter; TLC validates the merged trace against SessionsTrace.tla (exclusion, every session sees "
+      "exactly the committed keys, reads return committed values, foreign process gets the lock after each failed session "
+      "and at the end, final content = committed records).",
+      "fasteners' fcntl lock trusted; threads sharing a handle / nested sessions in one process outside the claim; schedules "
+      "in B are sampled, not exhaustive; bounded model constants in the evidence",
+      "TLA+ specs (Sessions, SessionSeq, SessionsTrace) model-checked with TLC incl. liveness; spec->code replay with "
+      "fault injection + lock probe; TLC trace validation of real multi-process executions",
+      "DESIGN.md 4/C04")
